@@ -100,6 +100,17 @@ def content_map(cls, pre=()):
     return out
 
 
+def multi_star_imports(cls, pre=()):
+    """Paths of the classes that have two or more unqualified imports (`import A.*; import B.*;`)."""
+    out = []
+    for n, c in cls.classes.items():
+        star = c.imports.get("*")
+        if star is not None and len(getattr(star, "components", [])) >= 2:
+            out.append(".".join(pre + (n,)))
+        out += multi_star_imports(c, pre + (n,))
+    return out
+
+
 def parents_ok(cls):
     for c in cls.classes.values():
         if c.parent is not cls or not parents_ok(c):
@@ -264,6 +275,7 @@ def check_library(ctx, case, drv, walks=True):
     nf = len(files)
     U = parse_text(case["unsplit"])
     refmap = content_map(U)
+    multi_star = multi_star_imports(U)
     ref = {c: loosen(v) for c, v in flat_each(U, classes).items()}
     ctx.count("ref-flatten-raises", sum(1 for v in ref.values() if v.startswith("raised:")))
     flats = Flats(classes)
@@ -281,7 +293,7 @@ def check_library(ctx, case, drv, walks=True):
             if mt != fo:
                 ctx.disagreement("merge.file_to_tree", {"file": f}, model=paths_of(mt or []), impl=paths_of(fo))
     small = {"files": files, "unsplit": case["unsplit"], "classes": classes, "meta": meta, "stream": case.get("stream"),
-             "ref_raises": [c for c in classes if ref[c].startswith("raised:")]}
+             "ref_raises": [c for c in classes if ref[c].startswith("raised:")], "multi_star_imports": multi_star}
     if small["ref_raises"]:
         ctx.count("libraries-with-a-class-that-does-not-flatten")
     f1_open = any(k["id"] == "C27-F1" and k.get("status") == "open" for k in ctx.known)
